@@ -201,6 +201,15 @@ class SymArray(np.ndarray):
                 return _reduce(ins[0], axis, lambda it: _all(it), True, **rk)
             if ufunc is np.logical_or:
                 return _reduce(ins[0], axis, lambda it: _any(it), False, **rk)
+        if method == "reduceat" and ufunc is np.add and len(ins) == 2 and kw.get("axis", 0) in (0, None) and np.asarray(ins[0]).ndim == 1:
+            # numpy's rule: segment i = a[idx[i]:idx[i+1]] (last one to the end); an EMPTY segment (idx[i] >= idx[i+1]) yields a[idx[i]]
+            a = np.asarray(ins[0]).view(np.ndarray)
+            idx = [int(i) for i in np.asarray(ins[1]).reshape(-1)]
+            res = np.empty(len(idx), dtype=object)
+            for i, lo in enumerate(idx):
+                hi = idx[i + 1] if i + 1 < len(idx) else len(a)
+                res[i] = a[lo] if lo >= hi else ssum(a[lo:hi])
+            return res.view(SymArray)
         res = getattr(ufunc, method)(*ins, **kw)
         if out is not None:
             return out[0] if len(out) == 1 else out
